@@ -294,6 +294,10 @@ func TestC03(t *testing.T) {
 		do("valid", ty, data)
 		corrupt(g.r, data, maxPos, func(tag string, d []byte) { do(tag, ty, d) })
 	}
+	// inputs of 2^32 bytes and more (see huge_test.go)
+	hugeCases(335, false, func(tag string, ty *Ty, h *hugeInput) {
+		out.emit(tag, "c03h", []string{ty.Sexp(), hexBytes(h.head), hx(h.pad), hexBytes(h.tail)}, c03hObs(ty, h))
+	})
 	// large limits with hostile first offsets
 	big := []*Ty{
 		{Kind: "list", Elem: &Ty{Kind: "list", Elem: &Ty{Kind: "u", N: 1}, N: 1 << 40}, N: 1 << 40},
